@@ -111,6 +111,8 @@ type recorder struct {
 	finished chan struct{}
 	burst    map[string]burstOutcome // by the request header "c03-burst"
 	burstLog map[string][]invocation
+	// every request / reply frame that travelled while a burst round was in progress
+	burstReqs, burstReps [][]byte
 }
 
 func (r *recorder) reset(script func(service, method string) (interface{}, error)) {
@@ -121,12 +123,18 @@ func (r *recorder) reset(script func(service, method string) (interface{}, error
 func (r *recorder) addReply(b []byte) {
 	r.mu.Lock()
 	r.replies = append(r.replies, append([]byte{}, b...))
+	if r.burst != nil {
+		r.burstReps = append(r.burstReps, append([]byte{}, b...))
+	}
 	r.mu.Unlock()
 }
 func (r *recorder) setRequest(b []byte) {
 	r.mu.Lock()
 	if r.request == nil {
 		r.request = append([]byte{}, b...)
+	}
+	if r.burst != nil {
+		r.burstReqs = append(r.burstReqs, append([]byte{}, b...))
 	}
 	r.mu.Unlock()
 }
@@ -726,21 +734,26 @@ func session(reg *labdriver.Registry, raw json.RawMessage) interface{} {
 	}
 	out := labdriver.Resp{"code": 0, "calls": results}
 	if len(q.Burst) > 0 {
-		out["burst"] = burst(reg, rec, client, q)
+		out["burst"], out["burst_frames"] = burst(reg, rec, lk, std, client, q)
 	}
 	return out
 }
 
 // burst makes the chosen calls again, concurrently, through the one client
-func burst(reg *labdriver.Registry, rec *recorder, client reflect.Value, q sessionReq) []interface{} {
+//
+// "burst_frames": per round {"round", "requests": [hex], "replies": [hex]}: every frame that travelled during the round
+func burst(reg *labdriver.Registry, rec *recorder, lk link, std *frugal.FStandardClient, client reflect.Value,
+	q sessionReq) ([]interface{}, []interface{}) {
 	type prepared struct {
 		tag  string
 		idx  int
 		m    reflect.Value
 		in   []reflect.Value
 		fctx frugal.FContext
+		rete error
 	}
 	res := []interface{}{}
+	frames := []interface{}{}
 	rounds := q.BurstRounds
 	if rounds <= 0 {
 		rounds = 1
@@ -748,6 +761,7 @@ func burst(reg *labdriver.Registry, rec *recorder, client reflect.Value, q sessi
 	for round := 0; round < rounds; round++ {
 		rec.mu.Lock()
 		rec.burst, rec.burstLog = map[string]burstOutcome{}, map[string][]invocation{}
+		rec.burstReqs, rec.burstReps = nil, nil
 		rec.mu.Unlock()
 		var ps []prepared
 		for _, idx := range q.Burst {
@@ -764,7 +778,7 @@ func burst(reg *labdriver.Registry, rec *recorder, client reflect.Value, q sessi
 			rec.mu.Lock()
 			rec.burst[tag] = burstOutcome{retv, rete}
 			rec.mu.Unlock()
-			ps = append(ps, prepared{tag, idx, m, in, fctx})
+			ps = append(ps, prepared{tag, idx, m, in, fctx, rete})
 		}
 		outs := make([]map[string]interface{}, len(ps))
 		var wg sync.WaitGroup
@@ -774,6 +788,9 @@ func burst(reg *labdriver.Registry, rec *recorder, client reflect.Value, q sessi
 			go func(i int) {
 				defer wg.Done()
 				o := map[string]interface{}{"index": ps[i].idx, "round": round}
+				if ps[i].rete != nil {
+					o["outcome_text"] = hex.EncodeToString([]byte(ps[i].rete.Error()))
+				}
 				outs[i] = o
 				defer func() {
 					if p := recover(); p != nil {
@@ -799,6 +816,7 @@ func burst(reg *labdriver.Registry, rec *recorder, client reflect.Value, q sessi
 		}
 		close(start)
 		wg.Wait()
+		lk.settle(std) // everything the round sent has been recorded
 		rec.mu.Lock()
 		for i := range ps {
 			hs := rec.burstLog[ps[i].tag]
@@ -807,13 +825,23 @@ func burst(reg *labdriver.Registry, rec *recorder, client reflect.Value, q sessi
 			}
 			outs[i]["handler"] = hs
 		}
+		fr := map[string]interface{}{"round": round}
+		hexes := func(bs [][]byte) []string {
+			out := []string{}
+			for _, b := range bs {
+				out = append(out, hex.EncodeToString(b))
+			}
+			return out
+		}
+		fr["requests"], fr["replies"] = hexes(rec.burstReqs), hexes(rec.burstReps)
+		frames = append(frames, fr)
 		rec.burst = nil
 		rec.mu.Unlock()
 		for _, o := range outs {
 			res = append(res, o)
 		}
 	}
-	return res
+	return res, frames
 }
 
 // prepareCall builds the reflected method, its arguments and the handler's scripted outcome for one call
